@@ -1,3 +1,19 @@
+//! stageleft final-crate generation, plus: on a fresh clone the generated (git-ignored) inputs of this
+//! crate pair do not exist yet -- put the committed placeholders in their place so both crates build.
+use std::path::Path;
+
+fn ensure(target: &str, placeholder: &str) {
+    let t = Path::new(target);
+    if !t.exists() {
+        let _ = std::fs::copy(placeholder, t);
+    }
+}
+
 fn main() {
+    println!("cargo::rerun-if-changed=src/generated.rs");
+    println!("cargo::rerun-if-changed=build.rs");
+    ensure("src/generated.rs", "gen/placeholder_generated.rs");
+    ensure("../hv_gen_emb/gen_build.rs", "gen/placeholder_gen_build.rs");
+    ensure("../hv_gen_emb/gen_desc.json", "gen/placeholder_gen_desc.json");
     stageleft_tool::gen_final!();
 }
